@@ -140,6 +140,11 @@ def build_hwmon(w, inp, rnd, big=False):
         elif ch["nest"] == "device":
             d = cls + "/device"
             w.files[cls + "/uevent"] = b""
+        elif (k + len(inp["chips"])) % 2:
+            # as the kernel lays it out: /sys/class/hwmon/hwmonN is a symlink into the device tree
+            # (and device names are full of underscores)
+            d = "/sys/devices/platform/%s_hwmon/hwmon/hwmon%d" % (ch["name"] or "x", k)
+            w.links[cls] = d
         else:
             d = cls
         w.dirs.add(d)
